@@ -2,6 +2,7 @@ package mcap
 
 import (
 	"fmt"
+	"math"
 )
 
 type ReadOrder int
@@ -37,6 +38,12 @@ func (ro *ReadOptions) Finalize() {
 }
 
 type ReadOpt func(*ReadOptions) error
+
+// beforeEnd reports whether a log time lies before the exclusive end of a read window. The largest
+// end value is the default and means "no upper bound", so that a message stamped 2^64-1 is readable.
+func beforeEnd(logTime, end uint64) bool {
+	return logTime < end || end == math.MaxUint64
+}
 
 // After limits messages yielded by the reader to those with log times after this timestamp.
 //
